@@ -188,6 +188,14 @@ func (e *Exec) execStdlib(fr *Frame, st *State, in ssa.CallInstruction, c *ssa.C
 		e.note("extern-contract: %s (assumed)", name)
 		return e.callModular(fr, st, in.(ssa.Instruction), xf, callee, name, e.callArgs(fr, st, c), rt)
 	}
+	for _, a := range c.Args {
+		if mc, ok := a.(*ssa.MakeClosure); ok {
+			v := e.val(fr, mc, st)
+			if ci, ok := e.closures[v.t()]; ok {
+				e.havocCaptured(st, ci, map[*ssa.Function]bool{})
+			}
+		}
+	}
 	switch name {
 	case "bytes.Index":
 		s, sep := arg(0), arg(1)
